@@ -78,8 +78,8 @@ TEXT.update({
 
 TEXT.update({
     "C20": ("exploration", "5 C20",
-            "Seeded random serializable values are pushed through the container and compared with the pointee's own serialization (string and token tree), for ArcSwap and ArcSwapOption, under all three default-constructible strategies; deserialization is checked for value and reference count; a pointee whose Serialize impl stores into the container half-way checks that the serialized value is a protected snapshot; deserialize_in_place is run with guards outstanding; natively, under ASan and under Miri.",
-            "differential monitor container-vs-pointee serialization over random values + ASan/Miri"),
+            "Seeded random serializable values are pushed through the container and compared with the pointee's own serialization (string and token tree), for ArcSwap and ArcSwapOption, under all three default-constructible strategies; deserialization is checked for value and reference count; a pointee whose Serialize impl stores into the container half-way checks that the serialized value is a protected snapshot; deserialize_in_place is run with guards outstanding; serialization also races with stores from another thread under all three strategies (whole, live, monotone outputs); natively, under ASan, TSan and Miri.",
+            "differential monitor container-vs-pointee serialization over random values + concurrent serialize-vs-store monitor + ASan/TSan/Miri"),
 })
 
 TEXT.update({
